@@ -24,6 +24,7 @@ started is min(eligible, max_outstanding.saturating_sub(pending_connections.len(
 the configured interval plus at most 1 s of jitter and the tick arm runs the connectivity check.
 Config accessors feeding the dialer (interval, backoff step, backoff cap, connecting cap) are pure projections of their own field.
 The check is driven by one interval owned by the manager loop and created outside it (a timer re-armed per iteration would be starved by busier arms).
+A lost connection leaves the connected set without a suspension in between (C04.4 re-evaluated), so the next check sees the peer as not connected.
 """
 TRUSTED = ["tokio interval ticks no earlier than its period", "std Instant/Duration arithmetic"]
 NOT_DECIDED = ["every timing bound of the property (one interval + jitter, min(max-backoff, k×step) + two intervals)", "that dialing eventually succeeds",
@@ -537,3 +538,14 @@ def run(cx):
 
     with cx.ob("C13.7", "R-WRITERS", "one layer out: interval, backoff step, backoff cap and connecting cap are never rewritten after the Config was built") as ob:
         check_config_immutable(ob, prog, ["connectivity_check_interval_ms", "connection_backoff_ms", "max_connection_backoff_ms", "max_concurrent_outstanding_connecting_connections"], repo=cx.repo)
+
+    with cx.ob("C13.8", "R-MUSTPASS", "a lost connection is noticed: the peer leaves the connected set as soon as its handler sees the connection end (no suspension before the removal, C04.4 re-evaluated) - only then does the next connectivity check see a High-affinity peer that is not connected and dial it") as ob:
+        from . import c04
+        sub = cx.__class__("C13", prog, cx.tier, cx.config, cx.tree, repo=cx.repo)
+        c04.run(sub)
+        w = [x for x in sub.obs if x.oid == "C04.4"]
+        ob.count(sum(x.evals for x in w))
+        bad = [v for x in w for v in x.violations if "handler-exit" in v.key]
+        ob.require(len(w) == 1 and not bad, "redial/lost-peer-removed-promptly", "a dead connection can stay listed (and its High-affinity peer undialed): " + "; ".join(str(v.msg) for v in bad)[:300],
+                   "anemo::network::request_handler::InboundRequestHandler::start")
+
